@@ -55,6 +55,7 @@ func (n *node) RouteSendPID(from gen.PID, to gen.PID, options gen.MessageOptions
 	qm.Target = to
 	qm.Message = message
 
+	lib.VerifPoint("send.push", p.pid.ID)
 	if ok := queue.Push(qm); ok == false {
 		if p.fallback.Enable == false {
 			return gen.ErrProcessMailboxFull
@@ -73,6 +74,7 @@ func (n *node) RouteSendPID(from gen.PID, to gen.PID, options gen.MessageOptions
 		return n.RouteSendProcessID(from, fbto, options, fbm)
 	}
 	atomic.AddUint64(&p.messagesIn, 1)
+	lib.VerifPoint("send.run", p.pid.ID)
 	p.run()
 	return nil
 }
@@ -126,6 +128,7 @@ func (n *node) RouteSendProcessID(from gen.PID, to gen.ProcessID, options gen.Me
 	qm.Target = to.Name
 	qm.Message = message
 
+	lib.VerifPoint("send.push", p.pid.ID)
 	if ok := queue.Push(qm); ok == false {
 		if p.fallback.Enable == false {
 			return gen.ErrProcessMailboxFull
@@ -145,6 +148,7 @@ func (n *node) RouteSendProcessID(from gen.PID, to gen.ProcessID, options gen.Me
 	}
 
 	atomic.AddUint64(&p.messagesIn, 1)
+	lib.VerifPoint("send.run", p.pid.ID)
 	p.run()
 	return nil
 }
@@ -205,6 +209,7 @@ func (n *node) RouteSendAlias(from gen.PID, to gen.Alias, options gen.MessageOpt
 		queue = p.mailbox.Main
 	}
 
+	lib.VerifPoint("send.push", p.pid.ID)
 	if ok := queue.Push(qm); ok == false {
 		if p.fallback.Enable == false {
 			return gen.ErrProcessMailboxFull
@@ -224,6 +229,7 @@ func (n *node) RouteSendAlias(from gen.PID, to gen.Alias, options gen.MessageOpt
 	}
 
 	atomic.AddUint64(&p.messagesIn, 1)
+	lib.VerifPoint("send.run", p.pid.ID)
 	p.run()
 	return nil
 }
@@ -429,10 +435,12 @@ func (n *node) RouteCallPID(from gen.PID, to gen.PID, options gen.MessageOptions
 	qm.Type = gen.MailboxMessageTypeRequest
 	qm.Message = message
 
+	lib.VerifPoint("send.push", p.pid.ID)
 	if ok := queue.Push(qm); ok == false {
 		return gen.ErrProcessMailboxFull
 	}
 	atomic.AddUint64(&p.messagesIn, 1)
+	lib.VerifPoint("send.run", p.pid.ID)
 	p.run()
 	return nil
 }
@@ -481,10 +489,12 @@ func (n *node) RouteCallProcessID(from gen.PID, to gen.ProcessID, options gen.Me
 	qm.Target = to.Name
 	qm.Message = message
 
+	lib.VerifPoint("send.push", p.pid.ID)
 	if ok := queue.Push(qm); ok == false {
 		return gen.ErrProcessMailboxFull
 	}
 	atomic.AddUint64(&p.messagesIn, 1)
+	lib.VerifPoint("send.run", p.pid.ID)
 	p.run()
 	return nil
 }
@@ -544,10 +554,12 @@ func (n *node) RouteCallAlias(from gen.PID, to gen.Alias, options gen.MessageOpt
 	default:
 		queue = p.mailbox.Main
 	}
+	lib.VerifPoint("send.push", p.pid.ID)
 	if ok := queue.Push(qm); ok == false {
 		return gen.ErrProcessMailboxFull
 	}
 	atomic.AddUint64(&p.messagesIn, 1)
+	lib.VerifPoint("send.run", p.pid.ID)
 	p.run()
 	return nil
 }
@@ -566,6 +578,7 @@ func (n *node) RouteLinkPID(pid gen.PID, target gen.PID) error {
 		if _, exist := n.processes.Load(target); exist == false {
 			return gen.ErrProcessUnknown
 		}
+		lib.VerifPoint("link.add", pid.ID)
 		return n.targetManager.AddLink(pid, target)
 	}
 
@@ -626,6 +639,7 @@ func (n *node) RouteLinkProcessID(pid gen.PID, target gen.ProcessID) error {
 		if _, exist := n.names.Load(target.Name); exist == false {
 			return gen.ErrProcessUnknown
 		}
+		lib.VerifPoint("link.add", pid.ID)
 		return n.targetManager.AddLink(pid, target)
 	}
 
@@ -683,6 +697,7 @@ func (n *node) RouteLinkAlias(pid gen.PID, target gen.Alias) error {
 		if _, exist := n.aliases.Load(target); exist == false {
 			return gen.ErrAliasUnknown
 		}
+		lib.VerifPoint("link.add", pid.ID)
 		return n.targetManager.AddLink(pid, target)
 	}
 
@@ -748,6 +763,7 @@ func (n *node) RouteLinkEvent(pid gen.PID, target gen.Event) ([]gen.MessageEvent
 		}
 
 		event := value.(*eventOwner)
+		lib.VerifPoint("link.add", pid.ID)
 		if err := n.targetManager.AddLink(pid, target); err != nil {
 			return nil, err
 		}
@@ -865,6 +881,7 @@ func (n *node) RouteMonitorPID(pid gen.PID, target gen.PID) error {
 				return gen.ErrProcessTerminated
 			}
 		}
+		lib.VerifPoint("monitor.add", pid.ID)
 		return n.targetManager.AddMonitor(pid, target)
 	}
 
@@ -928,6 +945,7 @@ func (n *node) RouteMonitorProcessID(pid gen.PID, target gen.ProcessID) error {
 				return gen.ErrProcessTerminated
 			}
 		}
+		lib.VerifPoint("monitor.add", pid.ID)
 		return n.targetManager.AddMonitor(pid, target)
 	}
 
@@ -987,6 +1005,7 @@ func (n *node) RouteMonitorAlias(pid gen.PID, target gen.Alias) error {
 		if _, exist := n.aliases.Load(target); exist == false {
 			return gen.ErrAliasUnknown
 		}
+		lib.VerifPoint("monitor.add", pid.ID)
 		return n.targetManager.AddMonitor(pid, target)
 	}
 
@@ -1051,6 +1070,7 @@ func (n *node) RouteMonitorEvent(pid gen.PID, target gen.Event) ([]gen.MessageEv
 			return nil, gen.ErrEventUnknown
 		}
 		event := value.(*eventOwner)
+		lib.VerifPoint("monitor.add", pid.ID)
 		if err := n.targetManager.AddMonitor(pid, target); err != nil {
 			return nil, err
 		}
@@ -1540,11 +1560,13 @@ func (n *node) sendExitMessage(from gen.PID, to gen.PID, message any) error {
 	qm.Type = gen.MailboxMessageTypeExit
 	qm.Message = message
 
+	lib.VerifPoint("send.push", p.pid.ID)
 	if ok := p.mailbox.Urgent.Push(qm); ok == false {
 		return gen.ErrProcessMailboxFull
 	}
 
 	atomic.AddUint64(&p.messagesIn, 1)
+	lib.VerifPoint("send.run", p.pid.ID)
 	p.run()
 	return nil
 }
@@ -1581,11 +1603,13 @@ func (n *node) sendEventMessage(
 	qm.Type = gen.MailboxMessageTypeEvent
 	qm.Message = message
 
+	lib.VerifPoint("send.push", p.pid.ID)
 	if ok := queue.Push(qm); ok == false {
 		return gen.ErrProcessMailboxFull
 	}
 
 	atomic.AddUint64(&p.messagesIn, 1)
+	lib.VerifPoint("send.run", p.pid.ID)
 	p.run()
 	return nil
 }
